@@ -81,17 +81,17 @@ def run_one(args):
     known = {(k.get("rule"), k.get("key")) for k in load_known() if k.get("status") == "open" and k.get("property") == prop}
     fails = [(o.rule, o.key, o.goal, o.detail) for o in ctx.obs if o.status == "fail" and (o.rule, o.key) not in known]
     und = [(o.rule, o.key, o.goal, o.detail) for o in ctx.obs if o.status == "undecided"]
-    if m.kind == "B":
+    if m.kind in ("B", "B2"):
         hit = [f for f in fails if not m.rules or f[0] in m.rules]
         if hit:
-            return (mid, prop, "B", "caught", "%s at %s" % (hit[0][0], hit[0][1]), fails)
+            return (mid, prop, m.kind, "caught", "%s at %s" % (hit[0][0], hit[0][1]), fails)
         if fails:
-            return (mid, prop, "B", "caught-other-rule", "%s at %s" % (fails[0][0], fails[0][1]), fails)
+            return (mid, prop, m.kind, "caught-other-rule", "%s at %s" % (fails[0][0], fails[0][1]), fails)
         if und:
-            return (mid, prop, "B", "undecided", "%s at %s" % (und[0][0], und[0][1]), und)
+            return (mid, prop, m.kind, "undecided", "%s at %s" % (und[0][0], und[0][1]), und)
         if ctx.floor_errors:
-            return (mid, prop, "B", "analysis-error", ctx.floor_errors[0], [])
-        return (mid, prop, "B", "missed", "", [])
+            return (mid, prop, m.kind, "analysis-error", ctx.floor_errors[0], [])
+        return (mid, prop, m.kind, "missed", "", [])
     elif m.kind == "X":
         # a correct variant on which some check is KNOWN to raise a false VIOLATION (documented limitation, DESIGN 10.5): tracked, not
         # asserted -- the outcome is reported so that progress (or regress) on these shapes is visible
@@ -138,6 +138,10 @@ def run_corpus(prop=None, ids=None, jobs=None, verbose=False):
             errors.append("mutant %s (%s) must be reported as a violation of %s but was %s %s" % (mid, kind, p, st, detail))
         if kind == "B" and st == "caught-other-rule":
             pass   # reported by a different rule than planned: still a detection
+        # B2: a seeded defect that the targeted check is recorded (meta.json "answered_with": "exit2") as answering with exit 2, because
+        # the rule that would decide it cannot read the changed shape: it must never be a silent pass, and a VIOLATION is welcome
+        if kind == "B2" and st in ("missed", "crash"):
+            errors.append("mutant %s (%s) must not pass silently for %s but was %s %s" % (mid, kind, p, st, detail))
         if kind == "U" and st == "false-alarm":
             errors.append("correct variant %s (unfamiliar shape) was reported as a violation of %s: %s" % (mid, p, detail))
         if kind == "E" and st != "silent" and st != "skipped":
@@ -267,6 +271,7 @@ def seeded_mutants():
             diff = f.read()
         with open(mp) as f:
             meta = json.load(f)
-        out.append(M("seeded:" + name, [meta["breaks_property"]], "*", (lambda src, _d=diff: apply_unified_diff(src, _d)), None, kind="B",
+        out.append(M("seeded:" + name, [meta["breaks_property"]], "*", (lambda src, _d=diff: apply_unified_diff(src, _d)), None,
+                     kind="B2" if meta.get("answered_with") == "exit2" else "B",
                      note="independently seeded change archived under /verif/seeded/%s" % name))
     return out
